@@ -202,6 +202,7 @@ def run(ctx):
                     bad='%s reads the mods\' clock rate directly: an explicit Difficulty::clock_rate override is ignored there' % fn.path)
     ctx.floor('C08-R2', len(cr), 3, 'callers of GameMods::clock_rate')
     nfn = 0
+    per_name = {}
     for name in ('ar', 'cs', 'hp', 'od'):
         path = 'model::mods::GameMods::%s' % name
         direct = callers.get(path, [])
@@ -213,10 +214,13 @@ def run(ctx):
                 for a in t['args']:
                     if a.get('k') == 'const' and 'fn' in a and a['fn'].get('path') == path:
                         nfn += 1
-                        ok = callee_path(t) == 'model::beatmap::attributes::ModsDependentKind::value'
+                        per_name[name] = per_name.get(name, 0) + 1
+                        ok = callee_path(t) == VALUE_FN or forwards_to_value(F, callee_path(t), t['args'].index(a) + 1)
                         ctx.require(ok, 'C08-R2', 'attr-fn:%s:%s' % (name, fn.path), 'GameMods::%s used as mods_fn of ModsDependentKind::value in %s' % (name, fn.path), fn.where(t['ln']),
                                     bad='GameMods::%s is passed to %s in %s' % (name, callee_path(t), fn.path))
-    ctx.floor('C08-R2', nfn, 8, 'uses of GameMods::{ar,cs,hp,od} as mods_fn')
+    ctx.floor('C08-R2', nfn, 4, 'uses of GameMods::{ar,cs,hp,od} as mods_fn')
+    for name in ('ar', 'cs', 'hp', 'od'):
+        ctx.floor('C08-R2', per_name.get(name, 0), 1, 'uses of GameMods::%s as mods_fn' % name)
     for fld in ('clock_rate', 'ar', 'cs', 'hp', 'od'):
         readers = set()
         for a in fieldidx.accesses(F, DIFF, fld):
@@ -239,3 +243,52 @@ def run(ctx):
                     bad='Difficulty::get_clock_rate no longer combines the explicit override with the mods\' clock rate')
     ctx.assume('rosu-mods 0.3.1: contains / contains_intermode / legacy_clock_rate agree for legacy-representable mods')
     ctx.not_decided('numerical equality of results across representations; lazer per-mod settings (speed change values, DifficultyAdjust values)')
+
+
+VALUE_FN = 'model::beatmap::attributes::ModsDependentKind::value'
+
+
+def forwards_to_value(F, path, k, depth=0):
+    """local function `path` uses its parameter k only by handing it on as the mods_fn of ModsDependentKind::value (or to another such forwarder)"""
+    if depth > 2:
+        return False
+    h = F.fn(path)
+    if h is None:
+        return False
+    P = prov.prov_of(h)
+    handed = [0]
+
+    def accepted(cp, args, i):
+        return as_param_path(args[i], through_calls=False) == (k, ()) and (cp == VALUE_FN or forwards_to_value(F, cp, i + 1, depth + 1))
+
+    def other_use(v, d=0):
+        """does v use parameter k other than as the forwarded argument of an accepted call"""
+        if d > 30:
+            return True
+        if v[0] == 'param':
+            return v[1] == k
+        if v[0] == 'call':
+            cp = v[1].get('path') or ''
+            for i, a in enumerate(v[2]):
+                if a == ('param', k) and accepted(cp, v[2], i):
+                    handed[0] += 1
+                    continue
+                if other_use(a, d + 1):
+                    return True
+            return False
+        for x in v[1:]:
+            if isinstance(x, tuple) and x and isinstance(x[0], str) and other_use(x, d + 1):
+                return True
+            if isinstance(x, (list, tuple)) and x and isinstance(x[0], tuple):
+                if any(other_use(y, d + 1) for y in x if isinstance(y, tuple) and y and isinstance(y[0], str)):
+                    return True
+            if isinstance(x, dict):
+                if any(other_use(y, d + 1) for y in x.values() if isinstance(y, tuple) and y and isinstance(y[0], str)):
+                    return True
+        return False
+
+    for bi, t in h.calls():
+        node = ('call', t['func'], P.call_args(bi))
+        if other_use(node):
+            return False
+    return handed[0] > 0
